@@ -16,7 +16,8 @@ RULE = ("(a) every history up to the depth bound over the alphabet {to_dict, fro
         "first calls of 2-3 threads up to the preemption bound: every thread's outcome, and one further sequential call afterwards, must "
         "equal the eager twin's. Non-trivial: a transition taken from a non-initial canonical state, or a schedule with >= 1 preemption.")
 ASSUMPTIONS = [
-    "atomic step of the scheduler = one line of generated code or the stretch between two traced library calls (DESIGN.md 5.3)",
+    "atomic step of the scheduler = one line of generated code or the stretch between two traced library calls (DESIGN.md 5.3); "
+    "in the `fine` units also the stretch between two library source lines that touch shared state (AST scan, sched.fine_lines)",
     "families, dialects and instances as in vmc/family.py; CPython 3.12.1",
 ]
 UNIT_TIMEOUT = 1500
@@ -30,7 +31,9 @@ def bounds(tier):
 
 
 def sched_bounds(tier):
-    return dict(threads=[2, 3], preemption_bound_2_threads=1 if tier == "quick" else 2, preemption_bound_3_threads=1)
+    return dict(threads=[2, 3], preemption_bound_2_threads=1 if tier == "quick" else 2, preemption_bound_3_threads=1,
+                fine_points="library lines touching shared state (sched.fine_lines), bound 1: " +
+                            ("5 harnesses" if tier == "quick" else "every two-thread harness"))
 
 
 def units(tier):
